@@ -72,6 +72,10 @@ macro_rules! dispatch {
                 type $p = props::c18::C18;
                 $body
             }
+            "C19" => {
+                type $p = props::c19::C19;
+                $body
+            }
             other => {
                 eprintln!("HARNESS-ERROR: unknown property {other}");
                 2
